@@ -211,27 +211,29 @@ def okRegister : Val → Bool
   | .regF _ (.const _ _) => true
   | _ => false
 
-/-- is the step written (`if s.step:`)? an int other than 0, or a let -/
-def okStep : Val → Bool
+/-- is the step written (`if s.step:` in `notate_slice`)? not for the int 0 -/
+def writesStep : Val → Bool
   | .int k => k != 0
-  | .const _ _ => true
-  | _ => false
+  | _ => true
+
+def stepToks (c : Val) : List Tok := if writesStep c then [.colon, refTok c] else []
+def stepSx (c : Val) : Sx := if writesStep c then refSx c else .none
 
 def mapToks : Val → List Tok
   | .qubit n src idx => [.MAP, .IDENTIFIER n, .IDENTIFIER (nameOf src), .lbrack, refTok idx, .rbrack]
   | .regA n src => [.MAP, .IDENTIFIER n, .IDENTIFIER (nameOf src)]
   | .regS n src a b c =>
-    .MAP :: .IDENTIFIER n :: .IDENTIFIER (nameOf src) :: .lbrack :: ([refTok a] ++ .colon :: ([refTok b] ++ ([.colon, refTok c] ++ [.rbrack])))
+    .MAP :: .IDENTIFIER n :: .IDENTIFIER (nameOf src) :: .lbrack :: ([refTok a] ++ .colon :: ([refTok b] ++ (stepToks c ++ [.rbrack])))
   | _ => []
 def mapSx : Val → Sx
   | .qubit n src idx => .list [.str "map", .str n, .str (nameOf src), refSx idx]
   | .regA n src => .list [.str "map", .str n, .str (nameOf src)]
-  | .regS n src a b c => .list [.str "map", .str n, .str (nameOf src), refSx a, refSx b, refSx c]
+  | .regS n src a b c => .list [.str "map", .str n, .str (nameOf src), refSx a, refSx b, stepSx c]
   | _ => .none
 def okMap : Val → Bool
   | .qubit _ src idx => src.name?.isSome && okRef idx
   | .regA _ src => src.name?.isSome
-  | .regS _ src a b c => src.name?.isSome && okRef a && okRef b && okRef c && okStep c
+  | .regS _ src a b c => src.name?.isSome && okRef a && okRef b && okRef c
   | _ => false
 
 def macroToks (m : Macro) : List Tok :=
@@ -273,6 +275,13 @@ def unbuild (c : Circuit) : Sx :=
   .list (.str "circuit" ::
     (c.usepulses.map usepulsesSx ++ c.constants.map letSx ++ (c.registers.filter isFund).map regSx ++
       (c.registers.filter (fun r => !isFund r)).map mapSx ++ c.macros.map macroSx ++ c.body.stmts.map stmtSx))
+
+/-- no alias has the literal step 0 (which `notate_slice` does not write: the one parser-accepted shape that does
+not survive the round trip; the builder lets it through when another bound of the slice is a let) -/
+def zeroStepFree (c : Circuit) : Bool :=
+  c.registers.all (fun r => match r with
+    | .regS _ _ _ _ (.int 0) => false
+    | _ => true)
 
 /-- every slot holds something Jaqal has syntax for -/
 def printable (c : Circuit) : Bool :=
